@@ -1200,3 +1200,332 @@ def _resyncs_on_divergence(prog: Program) -> tuple[bool, str]:
         return False, "no steady-state path evaluates an aligned round without re-synchronising (the recognised test was not found)"
     return True, f"{raw.qual}: a round whose samples carry different timestamps always awaits `{sync}` before it is evaluated"
 
+
+
+# ---------------------------------------------------------------------------------------------
+# A local that mirrors an attribute of `self` (`latest = self._cache` ... `latest = await self._read_and_store(..)`):
+# decided by a path-sensitive copy / None-ness analysis, not by the spelling
+_NONE, _TRUE, _FALSE = 0, -1, -2
+AliasState = tuple[tuple[tuple[str, Any], ...], frozenset[int]]
+
+
+def _boolean_expr(e: ast.AST) -> bool:
+    if isinstance(e, ast.Compare) or (isinstance(e, ast.Constant) and isinstance(e.value, bool)):
+        return True
+    if isinstance(e, ast.UnaryOp) and isinstance(e.op, ast.Not):
+        return True
+    return isinstance(e, ast.BoolOp) and all(_boolean_expr(v) for v in e.values)
+
+
+def attr_writers(cls: Any, attr: str) -> set[str]:
+    """Methods of `cls` that store `self.<attr>`, directly or through `self.<m>(..)` calls."""
+    if cls is None:
+        return set()
+    out = {m.name for m in cls.methods.values() if any(
+        isinstance(x, ast.Attribute) and isinstance(x.ctx, (ast.Store, ast.Del)) and x.attr == attr and u(x.value) == "self"
+        for x in ast.walk(m.node))}
+    changed = True
+    while changed:
+        changed = False
+        for m in cls.methods.values():
+            if m.name not in out and any(isinstance(c.func, ast.Attribute) and u(c.func.value) == "self" and c.func.attr in out
+                                         for c in walk_calls(m.node)):
+                out.add(m.name)
+                changed = True
+    return out
+
+
+class AliasStates:
+    """All the (copy-equality, None-ness) states in which each CFG node of `flow` can be entered, for the local
+    names of the function and ONE attribute `self.<attr>` (written `@`).
+
+    A state is a partition of these variables into classes holding the same value, a class being None / True /
+    False / an unknown value (possibly known not to be None).  The exploration is path-sensitive: states are never
+    joined, `x is None` / `x is not None` / flag tests cut the branches a state cannot take and refine the state
+    on the branches it can, a condition assigned to a local forks the state (so the flag is decided later on).
+    An await -- anything may run meanwhile -- and a call of a method of the class that stores the attribute make
+    the attribute's value unknown; a statement left through an exception has done that but not its assignment.
+
+    `init`: None (attribute unknown on entry) | "none" | "some"; `avoid`: nodes the exploration does not pass
+    (it records that they were reached).  `same(e, nid)`: whenever node nid is entered, `e` holds the attribute's
+    current value (`e` is the attribute itself, or a local in its class in every state).
+
+    `mark`: a node whose assignment binds a value that has to end up in the attribute (written `$`; it is an object,
+    not None).  The obligation is open from the completion of that node until a state in which the attribute holds
+    that very value; `pending(nid)`: node nid can be entered with the obligation open.  (An exception in between
+    drops the obligation: what happens to a sample when the routine fails is another clause.)
+    """
+
+    def __init__(self, flow: Flow, attr: str, init: str | None = None, avoid: Iterable[int] = (), limit: int = 6000,
+                 mark: int | None = None) -> None:
+        self.fl = flow
+        self.cfg = flow.cfg
+        self.attr = attr
+        self.mark = mark
+        self.writers = attr_writers(flow.fn.cls, attr)
+        self.tracked = {"@"}
+        for n in self.cfg.nodes:
+            for w in flow._writes(n.id):
+                if isinstance(w, ast.Name):
+                    self.tracked.add(w.id)
+        self.at: dict[int, set[AliasState]] = {}
+        self._explore(init, set(avoid), limit)
+
+    # ---------------------------------------------------------------- states
+    @staticmethod
+    def _freeze(env: dict[str, Any], nn: set[int]) -> AliasState:
+        """Canonical form: values renumbered in the order of the (sorted) variables; a variable holding a value of
+        its own nothing is known about is left out (that is the default)."""
+        cnt: dict[int, int] = {}
+
+        def count(v: Any) -> None:
+            if isinstance(v, tuple):
+                for x in v:
+                    count(x)
+            else:
+                cnt[v] = cnt.get(v, 0) + 1
+
+        for v in env.values():
+            count(v)
+        ren: dict[int, int] = {}
+
+        def rn(v: Any) -> Any:
+            if isinstance(v, tuple):
+                return tuple(rn(x) for x in v)
+            if v <= 0:
+                return v
+            if v not in ren:
+                ren[v] = len(ren) + 1
+            return ren[v]
+
+        items: list[tuple[str, Any]] = []
+        for k in sorted(env):
+            v = env[k]
+            if not isinstance(v, tuple) and v > 0 and cnt[v] == 1 and v not in nn:
+                continue
+            items.append((k, rn(v)))
+        return tuple(items), frozenset(ren[v] for v in nn if v in ren)
+
+    @staticmethod
+    def _fresh(env: dict[str, Any]) -> int:
+        top = 0
+        todo = list(env.values())
+        while todo:
+            v = todo.pop()
+            if isinstance(v, tuple):
+                todo.extend(v)
+            elif v > top:
+                top = v
+        return top + 1
+
+    @staticmethod
+    def _subst(env: dict[str, Any], old: int, new: int) -> None:
+        def sub(v: Any) -> Any:
+            if isinstance(v, tuple):
+                return tuple(sub(x) for x in v)
+            return new if v == old else v
+        for k in list(env):
+            env[k] = sub(env[k])
+
+    def _is_attr(self, e: ast.AST) -> bool:
+        return isinstance(e, ast.Attribute) and e.attr == self.attr and u(e.value) == "self"
+
+    def _var(self, e: ast.AST) -> str | None:
+        if isinstance(e, ast.Name) and e.id in self.tracked:
+            return e.id
+        return "@" if self._is_attr(e) else None
+
+    def _val(self, e: ast.AST | None, env: dict[str, Any], nn: set[int]) -> Any:
+        if isinstance(e, ast.Constant):
+            return _NONE if e.value is None else _TRUE if e.value is True else _FALSE if e.value is False else None
+        if e is None:
+            return _NONE
+        v = self._var(e)
+        if v is not None and (not isinstance(e, ast.Name) or isinstance(e.ctx, ast.Load)):
+            if v not in env:
+                env[v] = self._fresh(env)
+            return env[v]
+        if isinstance(e, ast.IfExp):
+            t = tri(e.test, lambda x: self._atom(x, env, nn))
+            if t is not None:
+                return self._val(e.body if t else e.orelse, env, nn)
+        if isinstance(e, ast.Tuple) and isinstance(e.ctx, ast.Load) and not any(isinstance(x, ast.Starred) for x in e.elts):
+            out = []
+            for x in e.elts:
+                v = self._val(x, env, nn)
+                if v is None:
+                    v = self._fresh({**env, "?": tuple(out)})
+                out.append(v)
+            return tuple(out)
+        return None
+
+    def _atom(self, e: ast.AST, env: dict[str, Any], nn: set[int]) -> Tri:
+        ta = truth_atom(e)
+        if ta is not None:
+            v = self._val(ta[0], env, nn)
+            if v is None:
+                return None
+            if isinstance(v, tuple):
+                return not ta[1]
+            if v == _NONE:
+                return ta[1]
+            return (not ta[1]) if (v in nn or v < 0) else None
+        if isinstance(e, (ast.Name, ast.Attribute)):
+            v = self._val(e, env, nn)
+            if isinstance(v, tuple):
+                return len(v) > 0
+            if v == _NONE or v == _FALSE:
+                return False
+            if v == _TRUE:
+                return True
+            if v is not None and v in nn and v == env.get("@"):
+                return True  # the cached object is not a container / number: a sample is truthy
+        return None
+
+    def _refine(self, test: ast.AST, outcome: bool, env: dict[str, Any], nn: set[int]) -> bool:
+        """Narrow (env, nn) in place by `test == outcome`; False when that is impossible in this state."""
+        if isinstance(test, ast.UnaryOp) and isinstance(test.op, ast.Not):
+            return self._refine(test.operand, not outcome, env, nn)
+        if isinstance(test, ast.BoolOp):
+            if isinstance(test.op, ast.And) == outcome:  # `a and b` true / `a or b` false: every operand decided
+                return all(self._refine(v, outcome, env, nn) for v in test.values)
+            return tri(test, lambda x: self._atom(x, env, nn)) is not (not outcome)
+        t = tri(test, lambda x: self._atom(x, env, nn))
+        if t is not None:
+            return t == outcome
+        ta = truth_atom(test)
+        if ta is not None:
+            v = self._val(ta[0], env, nn)
+            if isinstance(v, int) and v > 0:
+                if ta[1] == outcome:  # it is None
+                    self._subst(env, v, _NONE)
+                else:
+                    nn.add(v)
+            return True
+        if isinstance(test, (ast.Name, ast.Attribute)):
+            v = self._val(test, env, nn)
+            if isinstance(v, int) and v > 0 and outcome:
+                nn.add(v)
+        return True
+
+    def _assign(self, tgt: ast.AST, v: Any, env: dict[str, Any]) -> None:
+        if isinstance(tgt, (ast.Tuple, ast.List)) and isinstance(v, tuple) and len(v) == len(tgt.elts) \
+                and not any(isinstance(x, ast.Starred) for x in tgt.elts):
+            for t, x in zip(tgt.elts, v):  # `ok, sample = <pair>`: element by element
+                self._assign(t, x, env)
+            return
+        for t in _flatten_target(tgt):
+            k = self._var(t)
+            if k is None:
+                continue
+            env[k] = (self._fresh(env) if v is None else v) if t is tgt else self._fresh(env)
+
+    def _kills(self, nid: int, env: dict[str, Any]) -> None:
+        n = self.cfg.nodes[nid]
+        if n.ast is None:
+            return
+        hit = self.cfg.is_await(nid)
+        if not hit and self.writers:
+            hit = any(isinstance(c.func, ast.Attribute) and u(c.func.value) == "self" and c.func.attr in self.writers
+                      for part in parts_of(n) for c in walk_calls(part))
+        if hit:
+            env["@"] = self._fresh(env)
+
+    def _post(self, nid: int, st: AliasState) -> tuple[list[tuple[dict[str, Any], set[int]]], tuple[dict[str, Any], set[int]]]:
+        """(states after the node completed, state when it is left through an exception)."""
+        n = self.cfg.nodes[nid]
+        env, nn = dict(st[0]), set(st[1])
+        self._kills(nid, env)
+        exc = (dict(env), set(nn))
+        a = n.ast
+        if n.kind == "stmt" and isinstance(a, (ast.Assign, ast.AnnAssign)) and a.value is not None:
+            tgts = a.targets if isinstance(a, ast.Assign) else [a.target]
+            if _boolean_expr(a.value) and not isinstance(a.value, ast.Constant):
+                t = tri(a.value, lambda x: self._atom(x, env, nn))
+                outs = []
+                for o in ([t] if t is not None else [True, False]):
+                    e2, n2 = dict(env), set(nn)
+                    if self._refine(a.value, o, e2, n2):
+                        for tg in tgts:
+                            self._assign(tg, _TRUE if o else _FALSE, e2)
+                        outs.append((e2, n2))
+                return outs, exc
+            v = self._val(a.value, env, nn)
+            if v is None:
+                v = self._fresh(env)
+            for tg in tgts:
+                self._assign(tg, v, env)
+            if nid == self.mark and isinstance(v, int) and v > 0:
+                env["$"] = v
+                nn.add(v)
+            return [(env, nn)], exc
+        for w in self.fl._writes(nid):
+            k = self._var(w)
+            if k is not None:
+                env[k] = self._fresh(env)
+        return [(env, nn)], exc
+
+    def _explore(self, init: str | None, avoid: set[int], limit: int) -> None:
+        env0: dict[str, Any] = {}
+        nn0: set[int] = set()
+        if init == "none":
+            env0["@"] = _NONE
+        elif init == "some":
+            env0["@"] = 1
+            nn0.add(1)
+        start = self._freeze(env0, nn0)
+        todo = [(self.cfg.entry, start)]
+        self.at[self.cfg.entry] = {start}
+        total = 0
+        while todo:
+            nid, st = todo.pop()
+            if nid in avoid:
+                continue
+            n = self.cfg.nodes[nid]
+            posts, exc = self._post(nid, st)
+            for m, lab in self.cfg.succ[nid]:
+                outs: list[tuple[dict[str, Any], set[int]]]
+                if lab.startswith("exc:"):
+                    outs = [({k: v for k, v in exc[0].items() if k != "$"}, exc[1])]
+                elif lab in ("true", "false") and n.kind in ("test", "while"):
+                    test = n.ast if n.kind == "test" else n.ast.test  # type: ignore[union-attr]
+                    outs = []
+                    for e1, n1 in posts:
+                        e2, n2 = dict(e1), set(n1)
+                        if self._refine(test, lab == "true", e2, n2):  # type: ignore[arg-type]
+                            outs.append((e2, n2))
+                else:
+                    outs = posts
+                for e1, n1 in outs:
+                    if "$" in e1 and e1.get("@") == e1["$"]:
+                        e1 = {k: v for k, v in e1.items() if k != "$"}  # the value is in the attribute: discharged
+                    fz = self._freeze(e1, n1)
+                    seen = self.at.setdefault(m, set())
+                    if fz not in seen:
+                        seen.add(fz)
+                        total += 1
+                        if total > limit:
+                            raise AnalysisError(f"{self.fl.fn.qual}: too many copy states while following self.{self.attr}")
+                        todo.append((m, fz))
+
+    # ---------------------------------------------------------------- queries
+    def reached(self, nid: int) -> bool:
+        return bool(self.at.get(nid))
+
+    def pending(self, nid: int) -> bool:
+        return any("$" in dict(items) for items, _nn in self.at.get(nid, ()))
+
+    def same(self, e: ast.AST, nid: int) -> bool:
+        if self._is_attr(e):
+            return True
+        k = self._var(e)
+        if k is None:
+            return False
+        sts = self.at.get(nid)
+        if not sts:
+            return False
+        for items, _nn in sts:
+            env = dict(items)
+            if k not in env or "@" not in env or env[k] != env["@"]:
+                return False
+        return True
